@@ -71,7 +71,9 @@ func (w *writer) NeedsRollover(rollover int64) bool {
 	// Rollover is intentionally based on data-file size only, not including the
 	// index. The index grows proportionally; callers set the threshold based on
 	// message-data volume, not total on-disk cost.
-	return w.messages.Size() > rollover
+	// An empty segment never rolls over: a threshold below the size of the file
+	// header would otherwise roll the empty head over onto itself.
+	return w.messages.Size() > rollover && w.index.Len() > 0
 }
 
 func (w *writer) Publish(msgs []message.Message) (int64, error) {
